@@ -100,7 +100,7 @@ def shorten_runs(P, tier):
     rs = [R('shorten-paths', 'h_shorten.c', P + SHORT, 'S and B: scheme [//host] <=2 segments of <=1 char over [a-z.]; both modes', ['schemes-differ', 'same-authority-domain-root', 'same-authority-relative'], 600),
           R('shorten-authority', 'h_shorten.c', P + ['KS=1', 'KB=1', 'SEGL=1', 'SFLAGS=(G_SCHEME_REQ|G_AUTH_REQ|G_USERINFO|G_PORT)', 'BFLAGS=(G_SCHEME_REQ|G_AUTH_REQ|G_USERINFO|G_PORT)'], 'S and B with user info none/empty/1 char and port none/empty/1 digit, <=1 segment', ['same-authority-relative'], 600),
           R('shorten-colon', 'h_shorten.c', P + ['KS=2', 'KB=2', 'SEGL=2', 'GEN_PATH_COLON', 'SFLAGS=(G_SCHEME_REQ|G_AUTH_REQ)', 'BFLAGS=(G_SCHEME_REQ|G_AUTH_REQ)'], 'S and B: scheme //host <=2 segments of <=2 chars over [a-z.:]; both modes', ['same-authority-relative'], 600),
-          R('shorten-hostkinds', 'h_shorten.c', P + ['KS=1', 'KB=1', 'SEGL=1', 'SFLAGS=(G_SCHEME_REQ|G_AUTH_REQ|G_HOSTKINDS)', 'BFLAGS=(G_SCHEME_REQ|G_AUTH_REQ|G_HOSTKINDS)'], 'S and B with every host kind (reg-name, IPv4, IPv6, IPvFuture; symbolic digits), <=1 segment', ['same-authority-relative', 'schemes-differ'], 600),
+          R('shorten-hostkinds', 'h_shorten.c', P + (['KS=1', 'KB=1'] if tier == 'thorough' else ['KS=0', 'KB=0']) + ['SEGL=1', 'SFLAGS=(G_SCHEME_REQ|G_AUTH_REQ|G_HOSTKINDS)', 'BFLAGS=(G_SCHEME_REQ|G_AUTH_REQ|G_HOSTKINDS)'], 'S and B with every host kind (reg-name, IPv4, IPv6, IPvFuture; symbolic digits), no path (thorough: <=1 segment)', ['same-authority-relative', 'schemes-differ'], 2400 if tier == 'thorough' else 600),
           R('shorten-nonabsolute', 'h_shorten.c', P + ['KS=1', 'KB=1', 'SEGL=1', 'SFLAGS=(G_SCHEME_OPT|G_AUTH)', 'BFLAGS=(G_SCHEME_OPT|G_AUTH)'], 'S or B without scheme (error codes)', ['non-absolute-rejected'], 300)]
     if tier == 'thorough':
         rs.append(R('shorten-paths-3', 'h_shorten.c', P + ['KS=3', 'KB=3', 'SEGL=1', 'GEN_PATH_COLON', 'SFLAGS=(G_SCHEME_REQ|G_AUTH|G_QUERY)', 'BFLAGS=(G_SCHEME_REQ|G_AUTH|G_QUERY)'], '<=3 segments over [a-z.:], optional queries', ['same-authority-relative'], 2400))
